@@ -31,6 +31,7 @@ const (
 	faultStop // byzantine destination
 	faultRc   // resource manager refusal on the relay
 	faultIO   // the TCP connection of a party dies at its k-th I/O call from now
+	faultTag  // the relay task is held for 1 ms inside its ConnManager.TagPeer call for this request while the tagged peer disconnects
 )
 
 var rcSites = []string{"SvcSpan", "SvcMemory", "OpenStream", "SetService", "StreamMemory", "SetProtocol"}
@@ -173,7 +174,7 @@ func drawCfg(g simrt.Gen) *cfgT {
 		op := opT{kind: opReserve, a: i, raw: g.Bool()}
 		if c.cold && c.stratum == 1 {
 			// cold runs: the very first hop stream / reservation / connection may already meet the fault
-			op.fault = []int{faultNone, faultHop, faultRc, faultIO}[g.Weighted(3, 1, 1, 2)]
+			op.fault = []int{faultNone, faultHop, faultRc, faultIO, faultTag}[g.Weighted(3, 1, 1, 2, 1)]
 			drawFaultArgs(g, &op)
 		}
 		c.ops = append(c.ops, op)
@@ -201,13 +202,13 @@ func drawOp(g simrt.Gen, c *cfgT, batchOK bool) opT {
 	case opReserve:
 		op.raw = g.Bool()
 		if c.stratum == 1 {
-			op.fault = []int{faultNone, faultHop, faultRc, faultIO}[g.Weighted(4, 1, 1, 1)]
+			op.fault = []int{faultNone, faultHop, faultRc, faultIO, faultTag}[g.Weighted(4, 1, 1, 1, 2)]
 		}
 	case opConnect:
 		op.fwd, op.back = g.Int(8), g.Int(8)
 		op.hold = g.Chance(2, 5)
 		if c.stratum == 1 {
-			op.fault = g.Weighted(3, 3, 4, 3, 2)
+			op.fault = g.Weighted(3, 3, 4, 3, 2, 2)
 		}
 	case opAdvance:
 		op.dt = g.Int(7)
@@ -224,12 +225,21 @@ func drawOp(g simrt.Gen, c *cfgT, batchOK bool) opT {
 		op.raw = g.Bool()
 	case opBatch:
 		k := 2 + g.Int(3)
+		if g.Chance(1, 3) {
+			// a RESERVE racing the disconnect of the same client and nothing else of that client: whichever is handled
+			// first, the relay must end up with reservation and connection-manager tag both present or both absent
+			op.sub = append(op.sub, opT{kind: opReserve, a: op.a, raw: g.Bool(), hold: true}, opT{kind: opDisconnect, a: op.a, hold: true})
+			k = g.Int(2)
+		}
 		for i := 0; i < k; i++ {
 			var s opT
 			s.kind = []int{opReserve, opConnect, opDisconnect}[g.Weighted(4, 4, 1)]
 			s.a, s.b = drawPair(g, c)
 			s.raw = g.Bool()
 			s.hold = true
+			if len(op.sub) >= 2 && op.sub[1].kind == opDisconnect && op.sub[0].a == op.sub[1].a && (s.a == op.sub[0].a || (s.kind == opConnect && s.b == op.sub[0].a)) {
+				continue // keep the racing client free of other actions
+			}
 			op.sub = append(op.sub, s)
 		}
 	}
@@ -250,6 +260,8 @@ func drawFaultArgs(g simrt.Gen, op *opT) {
 		op.ioKind = []simnet.FaultKind{simnet.Reset, simnet.EOF, simnet.Stall}[g.Weighted(3, 3, 1)]
 		op.ioOnDst = g.Bool()
 		op.ioK = 1 + g.Int(12)
+	case faultTag:
+		op.ioOnDst = g.Bool()
 	}
 }
 
@@ -328,6 +340,12 @@ func (c *cfgT) opString(op opT) string {
 			side = "destination"
 		}
 		s += fmt.Sprintf(" fault=io:%s@%s-conn+%d", op.ioKind, side, op.ioK)
+	case faultTag:
+		side := "source"
+		if op.ioOnDst && op.kind != opReserve {
+			side = "destination"
+		}
+		s += " fault=disconnect-of-" + side + "-while-relay-is-in-TagPeer"
 	}
 	return s
 }
@@ -345,6 +363,11 @@ func faultClass(op opT) string {
 		return "rcmgr-" + op.rcSite
 	case faultIO:
 		return "io-" + op.ioKind.String()
+	case faultTag:
+		if op.kind == opReserve {
+			return "tag-race-reservation"
+		}
+		return "tag-race-hop"
 	}
 	return "none"
 }
